@@ -87,6 +87,9 @@ computed key, methods / `in` / `len` on a `{}` whose dict type is fixed by that 
 a comprehension as the iterable of a loop that changes the dicts it reads; `f(…)(**d)`; owned arguments re-bound by the same statement
 (form (d) of `check_owned_call`); items of a list that was empty when created typed by the attribute / method read from them;
 `[f(a, b, …) for a, b, … in rows]`; a list display of mixed types read as a tuple (entry key `list_rows`).
+Printed forms down to the note (group SrcText): `a <op> b` on two `Float`s (a value the spec types `Float`, e.g. a bound `amp / 120`,
+against a float literal) compared by their exact values; everything else the group needs is a spec binding (`spec.binops` for `/` and
+`in`, `spec.fstr`, `spec.globals`, `spec.subscripts`) or an entry key (`join_ifs`).
 Where the forks of the groups met (merges of SrcOrn, SrcDurOps, SrcExt, then of SrcConv, SrcBetween / SrcBetweenProject):
   * `/`: a `spec.binops` binding first (SrcDurOps: `Py.ratDiv`, SrcBetween: `PyB.ratDiv`), else the built-in reading (SrcOrn:
     `Py.fracDiv`, `x / 2` pure); bindings are looked up with the operand types as inferred, then with their type variables resolved;
@@ -833,6 +836,10 @@ class FunTr:
             # SrcImport: Python compares an int / a Fraction with a float exactly (`Fraction._richcmp` goes through `from_float`)
             a = f'(({a} : Int) : Rat)' if aty == 'Int' else a
             b = f'(({b} : Int) : Rat)' if bty == 'Int' else b
+            return f'(decide ({a} {self.CMP[op]} {b}))', 'Bool'
+        if aty == 'Float' and bty == 'Float':
+            # SrcText: two floats (a value the spec types `Float` against a float literal) are compared by their exact values,
+            # as IEEE comparison does on finite doubles (this pair of types raised `Untranslatable` before)
             return f'(decide ({a} {self.CMP[op]} {b}))', 'Bool'
         if aty == 'Np' and bty == 'Int':
             v = self.fresh('v')
